@@ -20,8 +20,8 @@ MANIFEST = {
     "technique": "bounded-exhaustive differential enumeration: every input executed in both modes and compared",
 }
 MANIFEST["text"] += " " + (
-    'Added after the seeding waves: noise settings with dist_noise_ne < dist_noise.')
-BUDGET = {"quick": 420, "thorough": 3000}
+    'Added after the seeding waves: noise settings with dist_noise_ne < dist_noise; the run with the feature on is also obtained incrementally (match the first observation, then match(all, expand=True)) for every second configuration and compared with the run without the feature.')
+BUDGET = {"quick": 600, "thorough": 3000}
 RULE = ("states = lattice columns compared (two per observation), transitions = implementation runs, traces validated = pairs whose "
         "'off' side was also compared with the all-walks reference; non-trivial = the two runs differ (index, probability or a "
         "non-emitting state on the best path); outcomes = (index off, index on, sign of the probability difference).")
@@ -70,7 +70,7 @@ def run_case(case):
         cfgs = [c for c in cfgs if not ("dist_noise_ne" in c and c["fam"] != "D")]
     for trace in traces:
         T = len(trace)
-        for c in cfgs:
+        for ci, c in enumerate(cfgs):
             r = {}
             for ne in (False, True):
                 cc = dict(c, ne=ne)
@@ -110,6 +110,29 @@ def run_case(case):
                     # (D2 can hide start candidates from both runs alike; only compare when the start sets coincide)
                     if ref["last"] == T - 1 and not c.get("max_dist") and abs(ref["best"] - b0) > 1e-9 * max(1.0, abs(b0)):
                         res["v"].append({"msg": f"{where}: emitting-only best {b0} != all-walks optimum {ref['best']}", "case": mini})
+            # the "on" side reached incrementally (match the first observation, then extend): switching the feature on must
+            # not make the match worse on that route either (every second configuration, to bound the cost)
+            if T >= 2 and ci % 2 == 0:
+                m2 = ms.make_matcher(mp, dict(c, ne=True))
+                try:
+                    m2.match(list(trace[:1]))
+                    r2 = m2.match(list(trace), expand=True)
+                except Exception as exc:  # noqa
+                    r2 = exc
+                res["n"] += 2
+                res["tr"] += 2
+                if isinstance(r2, Exception) or not (isinstance(r2, tuple) and len(r2) == 2):
+                    res["v"].append({"msg": f"{where}: non_emitting=True, match(first observation) + match(all, expand=True) gave {r2!r}", "case": mini})
+                else:
+                    e2 = -1 if not r2[0] else r2[1]
+                    if e2 < e0:
+                        res["v"].append({"msg": f"{where}: with non-emitting states, matched incrementally (first observation, then extended), the match "
+                                                f"ends at index {e2}, without them at {e0}", "case": mini})
+                    elif e0 == e2 == T - 1:
+                        b0_, b2 = best_live_emitting(m0, T - 1), best_live_emitting(m2, T - 1)
+                        if b0_ is not None and (b2 is None or b2 < b0_ - 1e-9 * max(1.0, abs(b0_))):
+                            res["v"].append({"msg": f"{where}: best emitting log-probability with non-emitting states, matched incrementally, {b2} < without {b0_}",
+                                             "case": mini})
             lb1 = m1.lattice_best or []
             if e0 != e1 or (sign not in (None, 0)) or any(e.obs_ne for e in lb1):
                 res["nt"] += 1
